@@ -537,6 +537,25 @@ class Driver:
                     self.doc.set_part(n, data)
                     manifest.add_full_path(n, mt)
                 limited(imp)
+            elif k == "merge":
+                src_doc, imgs = limited(self.make_source, o["source"])
+                imgs_t = "[" + ";".join("(%s,%s,%s)" % (z(it.name(u)), bytes_term(u, b, it), z(it.mt(m))) for u, b, m in imgs) + "]"
+                err_merge = None
+                try:
+                    limited(self.doc.merge_styles_from, src_doc)
+                except Timeout:
+                    raise
+                except Exception as e:
+                    err_merge = e
+
+                def tree_opt(n):
+                    xp = self.doc._Document__xmlparts.get(n)
+                    if xp is None or xp._XmlPart__tree is None:
+                        return "None"
+                    return "Some (%s)" % cx_term(xinfo_root(xp._XmlPart__tree.getroot()), it)
+                opt_term = "OMerge (%s) (%s) %s" % (tree_opt("content.xml"), tree_opt("styles.xml"), imgs_t)
+                if err_merge is not None:
+                    raise err_merge
             elif k == "save":
                 pk = o.get("packaging", "zip"); pretty = o.get("pretty")
                 eff_pretty = (pk in ("folder", "xml")) if pretty is None else bool(pretty)
@@ -592,6 +611,49 @@ class Driver:
                     twin_pre=twin_pre, twin_post=self.twin_term)
 
     # -- helpers for ops
+    def make_source(self, spec):
+        """a source document for merge_styles_from whose styles reference images, built from a JSON-able spec:
+        base = a template name or a sample path; fill = contents of pictures used by draw:fill-image styles; master = contents of
+        pictures used in the header of the first master page.  Returns (document, [(url, bytes, media type)]) where the list is
+        read independently from the source package: the images its master-page / fill-image styles reference, in document order"""
+        from odfdo import Element
+        base = fix_src(spec.get("base", "text"))
+        src = self.Document(base)
+        n = 0
+        for kind in ("fill", "master"):
+            for content in spec.get(kind, []):
+                data = expand(content)
+                pth = self.fresh(spec.get("ext", ".png")); open(pth, "wb").write(data)
+                url = src.add_file(pth)
+                n += 1
+                if kind == "fill":
+                    st = src.styles.get_element("//office:styles")
+                    st.append(Element.from_tag('<draw:fill-image draw:name="verif_fill_%d" xlink:href="%s" xlink:type="simple" '
+                                               'xlink:show="embed" xlink:actuate="onLoad"/>' % (n, url)))
+                else:
+                    mp = src.styles.get_element("//style:master-page")
+                    mp.append(Element.from_tag('<style:header><text:p><draw:frame draw:name="verif_hdr_%d" text:anchor-type="as-char" '
+                                               'svg:width="1cm" svg:height="1cm"><draw:image xlink:href="%s" xlink:type="simple"/>'
+                                               '</draw:frame></text:p></style:header>' % (n, url)))
+        # independent reading of the source: save it and look into the zip
+        buf = io.BytesIO(); src.save(buf)
+        members = dict((nm, b) for nm, _, b in read_zip(buf.getvalue()))
+        man = etree.fromstring(members["META-INF/manifest.xml"])
+        mts = dict((e.get(MN + "full-path"), e.get(MN + "media-type")) for e in man.iter(MN + "file-entry"))
+        XL = "{%s}href" % NS["xlink"]; ST = "{urn:oasis:names:tc:opendocument:xmlns:style:1.0}"
+        imgs = []
+        for part in ("content.xml", "styles.xml"):
+            root = etree.fromstring(members[part])
+            for e in root.iter():
+                if not isinstance(e.tag, str):
+                    continue
+                if e.tag == DR + "fill-image" and e.get(XL):
+                    imgs.append(e.get(XL))
+                elif e.tag == ST + "master-page":
+                    imgs += [i.get(XL) for i in e.iter(DR + "image") if i.get(XL)]
+        out = [(u, members.get(u), mts.get(u)) for u in imgs]
+        return self.Document(io.BytesIO(buf.getvalue())), out
+
     def make_data(self, name, variant, data=None):
         if data is not None:
             return data
@@ -792,6 +854,25 @@ def resolve(drv, o, rng_seed):
         if drv.saved[idx][1] == "xml":
             return []
         return [dict(op="open", src=idx, buf=rng.random() < 0.4)]
+    if k == "merge":
+        # sources whose styles reference images; picture contents from the same pool as add_file (names are content hashes,
+        # so the destination may already hold / have deleted the very same names)
+        S = samples(common.REPO)
+        with_imgs = [x for x in S if x.endswith(("background.odp", "example.odp"))]
+        if rng.random() < 0.3 and with_imgs:
+            return [dict(op="merge", source=dict(base=rng.choice(with_imgs)))]
+        pick = lambda: rng.choice(POOL[:3])
+        spec = dict(base=rng.choice(["text", "text", "presentation", "drawing"]), ext=rng.choice([".png", ".png", ".jpg"]),
+                    fill=[pick() for _ in range(rng.randint(0, 2))], master=[pick() for _ in range(rng.randint(0, 2))])
+        if not spec["fill"] and not spec["master"]:
+            spec["master"] = [pick()]
+        return [dict(op="merge", source=spec)]
+    if k == "delpic":
+        pics = [n for n in names if n.startswith("Pictures/")]
+        # also names deleted earlier (tombstones) and names only the file on disk still lists
+        c = drv.doc.container
+        pics += [n for n, b in c._Container__parts.items() if n.startswith("Pictures/") and b is None]
+        return [dict(op="del", name=rng.choice(pics))] if pics else []
     if k == "clone":
         return [dict(op="clone")]
     if k in ("clone2", "swap", "rmsource"):
